@@ -170,8 +170,20 @@ V14(e) ==
         ELSE "ok"
 
 ----------------------------------------------------------------------------
+\* C07, solvers without a decomposition skeleton: the HALS NNLS inner solver (objective recomputed from its
+\* callback iterates) and the ridge ALS of the CP / Tucker regressors (ridge objective of the prefix fits).
+\* objs are quantised relative to max(1, |first objective|); ObjTol = 1e-7 of that scale.
+ObjTol == 10
+V07seq(e) ==
+    IF ~(e.kind \in {"hals_nnls", "cp_regressor", "tucker_regressor"}) THEN "MalformedEvent"
+    ELSE IF \E j \in 1..Len(e.objs) : ~IsInt(e.objs[j]) THEN "ObjectiveNotFinite"
+    ELSE IF e.cond > CondMax THEN "ok"
+    ELSE IF ~NonIncreasing(e.objs, ObjTol) THEN "ObjectiveIncreasedBySweep"
+    ELSE "ok"
+
 Verdict(e) ==
-    IF e.ev = "Config" THEN (IF WellFormed(e) THEN "ok" ELSE "MalformedConfig")
+    IF e.ev = "ObjSeq" THEN (IF Prop = "C07" THEN V07seq(e) ELSE "ok")
+    ELSE IF e.ev = "Config" THEN (IF WellFormed(e) THEN "ok" ELSE "MalformedConfig")
     ELSE IF cur.ev # "Config" THEN "NoConfig"
     ELSE IF e.ev = "Prefix" THEN
         IF e.out # "ok" THEN "ok"                   \* a raised call carries no obligation (counted by the harness)
